@@ -14,6 +14,12 @@ inductive Rx where
   | alt (a b : Rx)
   /-- `a{min, max}`; `max = none` is unbounded; `greedy = false` is the lazy variant -/
   | rep (a : Rx) (min : Nat) (max : Option Nat) (greedy : Bool)
+  /-- `$` (without MULTILINE): at the end of the text, or in front of a line break that ends it; `\Z`: at the end -/
+  | atEnd (strict : Bool)
+  /-- `^` / `\A` (without MULTILINE): at index 0 of the text (not of the slice the parse started at) -/
+  | atStart
+  /-- `(?=a)` and `(?!a)` -/
+  | look (neg : Bool) (a : Rx)
   deriving Inhabited, Repr
 
 namespace Rx
@@ -38,6 +44,13 @@ def m : Nat → Rx → Array Nat → Nat → (Nat → Option Nat) → Option Nat
       match inp[i]? with
       | some c => if inRanges c rs != neg then k (i + 1) else none
       | none => none
+    | .atEnd strict =>
+      if i == inp.size || (!strict && i + 1 == inp.size && inp[i]? == some 10) then k i else none
+    | .atStart => if i == 0 then k i else none
+    | .look neg a =>
+      match m fuel a inp i some with
+      | some _ => if neg then none else k i
+      | none => if neg then k i else none
     | .seq a b => m fuel a inp i (fun j => m fuel b inp j k)
     | .alt a b =>
       match m fuel a inp i k with
